@@ -253,15 +253,28 @@ Definition modifies (b : beh) : bool := match b with BModify => true | _ => fals
 Definition tags (lv : level) (l : mods) : trace :=
   map (fun m => (lv, fst m)) (filter (fun m => modifies (snd m)) l).
 
-(* declaratively: the i-th invoked modifier sees the initial value followed by the tags of
-   the modifying modifiers before it; nothing else is invoked after the first failure *)
+Definition strips (b : beh) : bool := match b with BStrip => true | _ => false end.
+
+(* what one modifier does to the value it is given (when it does not fail) *)
+Definition apply_beh (lv : level) (m : nat * beh) (v : trace) : trace :=
+  match snd m with
+  | BModify => (v ++ [(lv, fst m)])%list
+  | BStrip => []
+  | _ => v
+  end.
+(* the value after the modifiers of l, one after the other *)
+Definition steps (lv : level) (l : mods) (v : trace) : trace :=
+  fold_left (fun acc m => apply_beh lv m acc) l v.
+
+(* declaratively: the i-th invoked modifier sees the initial value as changed by the
+   modifiers before it; nothing else is invoked after the first failure *)
 Definition seen_decl (lv : level) (l : mods) (v : trace) : list (nat * trace) :=
   map (fun i => match nth_error l i with
-                | Some (p, _) => (p, (v ++ tags lv (firstn i l))%list)
+                | Some (p, _) => (p, steps lv (firstn i l) v)
                 | None => (0, [])
                 end) (seq 0 (List.length (called l))).
 Definition out_decl (lv : level) (l : mods) (v : trace) : option trace :=
-  match failed l with Some _ => None | None => Some (v ++ tags lv l)%list end.
+  match failed l with Some _ => None | None => Some (steps lv l v) end.
 
 Definition vlayer_decl (lv : level) (rq rs : mods) (inner : vproxy) : vproxy := fun v =>
   match out_decl lv rq v with
